@@ -78,7 +78,7 @@ Qed.
 (* lists and tuples: the FULL statement, every class, every length, no guard *)
 Theorem C07_ctor_sound_seq : forall c l d, wf c (Seq l) = true -> ctor c (Seq l) = Ok d -> all_valid d.
 Proof.
-  intros c l d Hwf Hc. destruct l as [|h l]; [discriminate|]. unfold ctor in Hc.
+  intros c l d Hwf Hc. destruct l as [|h l]; [injection Hc as <-; constructor|]. unfold ctor in Hc.
   cbn [wf] in Hwf. apply andb_true_iff in Hwf. destruct Hwf as [_ Hp].
   set (L := h :: l) in *. clearbody L.
   assert (K : forall e, (if forallb (accept c) L then Ok (map (stored c) L) else Err e) = Ok d -> all_valid d).
@@ -138,7 +138,7 @@ Proof.
     + apply (S c [it]).
     + apply Rp; discriminate.
     + apply (Rp (Conv it) 1); discriminate.
-  - destruct l as [|h l]; [discriminate|]. unfold ctor in Hc. set (L := h :: l) in *. clearbody L.
+  - destruct l as [|h l]; [injection Hc as <-; split; intros []|]. unfold ctor in Hc. set (L := h :: l) in *. clearbody L.
     assert (K : forall e, (if forallb (accept c) L then Ok (map (stored c) L) else Err e) = Ok d -> ~ In NoneElt d /\ ~ In NormFloat d).
     { intros e. destruct (forallb (accept c) L); [|discriminate]. intros H. injection H as <-. apply S. }
     destruct (is_twist c); [eapply K; eassumption|]. destruct (is_pose c); [eapply K; eassumption|].
@@ -161,6 +161,10 @@ Proof.
 Qed.
 Print Assumptions C07_ctor_bare_rejects.
 (* ------------------------------------------------------------------ completeness: members are taken, bare or in a list of any length, in order *)
+(* the empty list / tuple gives the empty object for every class (fix 1105ad0) *)
+Theorem C07_ctor_empty : forall c, ctor c (Seq []) = Ok [].
+Proof. reflexivity. Qed.
+Print Assumptions C07_ctor_empty.
 Theorem C07_ctor_accepts_members :
   accept cSO2 (Arr (Sq 2) Valid) = true /\ accept cSE2 (Arr (Sq 3) Valid) = true /\ accept cSO3 (Arr (Sq 3) Valid) = true /\
   accept cSE3 (Arr (Sq 4) Valid) = true /\ accept cUQ (Arr (Vec 4) Valid) = true /\ accept cTw3 (Arr (Vec 6) Valid) = true /\
